@@ -31,6 +31,10 @@ def instances():
                 out.append(binop(name, cls, orc, a, b, ["C03", "C01", "C02", "C05"], tier="thorough", timeout=1200))
         for a, b in (("n", "i"), ("i", "n"), ("n", "n"), ("n", "d")):
             out.append(binop(name, cls, "ORC_NONE", a, b, ["C01", "C05"], tier="thorough"))
+    e = binop("exp", "OpEXPExpression", "ORC_EXP", "i", "i", ["C03", "C01", "C02", "C05"], timeout=900)
+    e.unwindset = ["_ZNK4bloc15OpEXPExpression5valueERNS_7ContextE.0:66"]
+    e.bounds = "all int64 bases and exponents (64 rounds of square-and-multiply unwound); value asserted on algebraic anchor points"
+    out.append(e)
     for name, cls, orc in BITW:
         out.append(binop(name, cls, orc, "i", "i", ["C03", "C01", "C02", "C05"]))
         for a, b in (("n", "i"), ("i", "n"), ("n", "n")):
